@@ -183,6 +183,20 @@ def judge(trace, out):
                              'as not sent' % (bid, sender))
                 if results and results[0] == 'success':
                     out.fail('never-sent-but-success', 'bundle %s of %s never appeared on the wire but was reported success' % (bid, sender))
+        if abrupt and world.ends[sender].sock.closed:
+            # the connection went away under the session (close() or loss of the peer): what was accepted for sending is
+            # still accounted for, and nothing is started on the dead connection
+            closed_seq = [e['seq'] for e in world.ends[sender].agent_signals('connection_closed')]
+            for bid, data in queued:
+                if not sfin.get(bid):
+                    out.fail('bundle-never-reported-after-abrupt-end', 'bundle %s accepted by %s got no send_bundle_finished at all '
+                             'although the connection is gone (%s)' % (bid, sender, 'it had started' if bid in started else 'it never started'))
+                    break
+            if closed_seq:
+                late = [e['args'][0] for e in tm.signals_of(trace, sender, 'send_bundle_started') if e['seq'] > min(closed_seq)]
+                if late:
+                    out.fail('transfer-started-after-close', '%s announced send_bundle_started for %s after its connection had closed'
+                             % (sender, late))
         if not any_term and not abrupt:
             missing = [bid for bid, _d in queued if bid not in rfin]
             if missing:
